@@ -13,7 +13,8 @@ def prepare(ctx):
     rc, out = ctx.run_driver(binary, test_run="^TestExtract$", env={"VERIF_OUT": plan})
     if rc != 0 or not os.path.exists(plan):
         raise vlib.Inconclusive("plan extraction failed rc=%s\n%s" % (rc, out[-2000:]))
-    env = {"PLAN_FILE": plan, "VERSIONS_FILE": os.path.join(vlib.SPEC, "ref", "versions.ref.json")}
+    env = {"PLAN_FILE": plan, "VERSIONS_FILE": os.path.join(vlib.SPEC, "ref", "versions.ref.json"),
+           "TAGS_FILE": os.path.join(vlib.SPEC, "ref", "fieldtags.ref.json")}
     deep = "" if ctx.quick else "_deep"     # thorough tier: every population for structures with up to 9 optional members
     r = ctx.tlc("Plan", "Plan_mc%s.cfg" % deep, workers=12, env=env, must_pass=False)
     static = []
